@@ -5,6 +5,7 @@ import (
 	"math/big"
 	"os"
 	"sort"
+	"strings"
 	"sync"
 	"testing"
 
@@ -104,8 +105,10 @@ type op10 struct {
 	Ratio  string `json:"ratio,omitempty"`  // feeswap: 18-decimal mantissa
 	Fault  string `json:"fault,omitempty"`  // "", error, revert, plus, minus, noop
 	NoKey  bool   `json:"no_key,omitempty"` // toerc20: the EVM does not support the receiver's key type
-	Enable bool   `json:"enable,omitempty"`
-	Parts  int    `json:"parts,omitempty"` // tonative: the EVM transaction calls swapToNative this many times (one log each)
+	// toerc20/fromerc20: the coin's denom is the token's min unit in upper case - another bank denom, which names no token
+	UpperDenom bool `json:"upper_denom,omitempty"`
+	Enable     bool `json:"enable,omitempty"`
+	Parts      int  `json:"parts,omitempty"` // tonative: the EVM transaction calls swapToNative this many times (one log each)
 	// tonative: the same EVM transaction also touches a contract that is not bound to any token and emits
 	// SwapToNative-shaped events of its own: Foreign of them, placed before (negative) or after the first real log
 	Foreign int `json:"foreign,omitempty"`
@@ -331,6 +334,7 @@ func (m *m10) Next(t *rapid.T) op10 {
 		op.Amount = m.drawAmount(t, m.c.Balance(e.Users[op.Who].Addr, m.toks[op.Tok].minUnit).BigInt()).String()
 		op.Fault = drawFault(t)
 		op.NoKey = rapid.IntRange(0, 14).Draw(t, "noKey") == 0
+		op.UpperDenom = rapid.IntRange(0, 1<<20).Draw(t, "upperdenom")%20 == 19
 		return op
 	case k < 54: // ERC20 -> native by message
 		op := op10{Kind: "fromerc20"}
@@ -339,6 +343,7 @@ func (m *m10) Next(t *rapid.T) op10 {
 		op.To = rapid.SampledFrom([]int{0, 1, 2, 3, 4, 5, op.Who, op.Who, 6, 6, 7, 7}).Draw(t, "to")
 		op.Amount = m.drawAmount(t, m.ercBal(m.toks[op.Tok], op.Who)).String()
 		op.Fault = drawFault(t)
+		op.UpperDenom = rapid.IntRange(0, 1<<20).Draw(t, "upperdenom")%12 == 11
 		return op
 	case k < 72: // ERC20 -> native by the contract's swapToNative + hook
 		op := op10{Kind: "tonative"}
@@ -515,6 +520,10 @@ func (m *m10) Apply(op op10) error {
 		amount = gen.BigOf(op.Amount)
 	}
 	coin := sdk.Coin{Denom: tk.minUnit, Amount: gen.ToInt(amount)}
+	otherCase := false
+	if up := strings.ToUpper(tk.minUnit); op.UpperDenom && up != tk.minUnit && (op.Kind == "toerc20" || op.Kind == "fromerc20") {
+		coin.Denom, otherCase = up, true
+	}
 	if f := faultOf(op.Fault); f != evm.NoFault {
 		c.EVMState.Faults = []evm.Fault{f}
 	}
@@ -622,6 +631,9 @@ func (m *m10) Apply(op op10) error {
 		e.EVM.Unsupported = false
 		hasAccount := op.To < len(e.Users) || op.To == holderModule
 		switch {
+		case otherCase:
+			reject = "the coin is of another denom (letter case), which names no token"
+			m.cls["conversion-of-a-denom-in-other-letter-case-refused"] = true
 		case tk.contract == nil:
 			reject = "no contract"
 		case !m.enabled:
@@ -652,6 +664,9 @@ func (m *m10) Apply(op op10) error {
 		to, toStr := m.recvAddr(op.To, op.Who)
 		res = c.Deliver(&v1.MsgSwapFromERC20{WantedAmount: coin, Sender: e.Users[op.Who].Addr.String(), Receiver: toStr})
 		switch {
+		case otherCase:
+			reject = "the wanted coin is of another denom (letter case), which names no token"
+			m.cls["conversion-of-a-denom-in-other-letter-case-refused"] = true
 		case tk.contract == nil:
 			reject = "no contract"
 		case !m.enabled:
